@@ -10,9 +10,18 @@ SCOPE_NODES = (ast.FunctionDef, ast.AsyncFunctionDef, ast.ClassDef, ast.Lambda, 
 COMPS = (ast.ListComp, ast.SetComp, ast.DictComp, ast.GeneratorExp)
 
 
-def render(chain):
+PARAM_FORMS = ['x', 'x=0', '*x', '**x', '*, x=0', 'x, /', '_p, *, x', '_p=0, *x']
+BIND_FORMS = ['x = %d', 'for x in (%d,): pass', 'with _use(%d) as x: pass', 'import os as x  # %d', '(x := %d)', 'x: int = %d', '(x, _q) = (%d, 0)',
+              'try: pass\nexcept Exception as x: pass  # %d', 'from os import path as x  # %d', '[x, *_q] = (%d,)']
+
+
+def render(chain, variant=0):
+    """variant 0: the canonical forms (assignment, positional lambda parameter); otherwise the binding form of every scope is
+    drawn from PARAM_FORMS / BIND_FORMS (binding forms that do not open a scope of their own)"""
+    import random
     kinds, roles = chain['kind'], chain['role']
     d = len(kinds)
+    rng = random.Random(variant * 1000003 + len(json.dumps(chain, sort_keys=True)) * 7 + sum(map(ord, json.dumps(chain, sort_keys=True))))
 
     def flags(r):
         return {'g': r.startswith('global'), 'n': r.startswith('nonlocal'), 'b': 'bind' in r, 'r': 'read' in r}
@@ -30,13 +39,13 @@ def render(chain):
             parts.append(inner)
         body = '(' + ', '.join(parts) + (',)' if len(parts) == 1 else ')') if parts else '0'
         if kinds[i - 1] == 'lambda':
-            return '(lambda %s: %s)' % ('x' if f['b'] else '', body)
+            return '(lambda %s: %s)' % ((rng.choice(PARAM_FORMS) if variant else 'x') if f['b'] else '', body)
         return '[%s for %s in (0,)]' % (body, 'x' if f['b'] else '_t%d' % i)
 
     lines = []
     mf = flags(chain['mrole'])
     if mf['b']:
-        lines.append('x = 0')
+        lines.append((rng.choice(BIND_FORMS) if variant else 'x = %d') % 0)
     if mf['r']:
         lines.append('_use(x)')
 
@@ -49,15 +58,22 @@ def render(chain):
             lines.append(pad + expr(i))
             return
         f = flags(roles[i - 1])
-        lines.append(pad + ('def f%d():' % i if k == 'function' else 'class C%d:' % i))
+        param = ''
+        if variant and k == 'function' and f['b'] and not f['g'] and not f['n'] and rng.random() < 0.4:
+            param = rng.choice(PARAM_FORMS)
+        lines.append(pad + ('%sdef f%d(%s):' % ('async ' if variant and rng.random() < 0.15 else '', i, param) if k == 'function' else 'class C%d:' % i))
         pad2 = pad + '    '
         n0 = len(lines)
         if f['g']:
             lines.append(pad2 + 'global x')
         if f['n']:
             lines.append(pad2 + 'nonlocal x')
-        if f['b']:
-            lines.append(pad2 + 'x = %d' % i)
+        if f['b'] and not param:
+            form = (rng.choice(BIND_FORMS) if variant else 'x = %d') % i
+            if (':=' in form and k == 'class') or ('x: int' in form and (f['g'] or f['n'])):
+                form = 'x = %d' % i
+            for fl in form.split('\n'):
+                lines.append(pad2 + fl)
         if f['r']:
             lines.append(pad2 + '_use(x)')
         stmts(i + 1, ind + 1)
@@ -359,8 +375,9 @@ def index_statements(tree):
 def main():
     data = json.load(sys.stdin)
     out = []
-    for cid, chain, owners in data.get('chains', []):
-        src = render(chain)
+    for item in data.get('chains', []):
+        cid, chain, owners = item[:3]
+        src = render(chain, item[3] if len(item) > 3 else 0)
         try:
             compile(src, '<chain>', 'exec')
         except SyntaxError as e:
@@ -371,7 +388,7 @@ def main():
         except Exception as e:  # noqa
             out.append({'id': cid, 'error': '%s: %s' % (type(e).__name__, e), 'source': src})
             continue
-        c.update({'id': cid, 'source': src, 'chain': chain})
+        c.update({'id': cid, 'source': src, 'chain': chain, 'variant': item[3] if len(item) > 3 else 0})
         out.append(c)
     for cid, src in data.get('pinned', []):
         c = analyse(src, '/nonexistent-verif-root/pinned.py', None, pinned=True)
